@@ -74,13 +74,13 @@ def gen_poly(rng, d):
 SESSION = []      # requests made so far in this process; the relevant ones are part of every replay
 
 
-def run_one(ctx, A, C, p, kind, eps, suc, tol, so, bits_vec, replay_base, pobj_override=None):
+def run_one(ctx, A, C, p, kind, eps, suc, tol, so, bits_vec, replay_base, pobj_override=None, pform_override=None):
     drv = ctx.driver()
     before = [c for i, c in enumerate(SESSION) if i >= len(SESSION) - 4 or (c.get("special") and i >= len(SESSION) - 60)]
     SESSION.append({"poly": list(p), "eps": eps, "suc": suc, "tolerance": tol, "signal_operator": so, "seed_bits": bits_vec})
     pobj, pform = P.poly_form(p, (list(p), so, eps)) if not all(isinstance(x, int) for x in p) else (list(p), "int-list")
     if pobj_override is not None:
-        pobj, pform = pobj_override, "callers-own-ndarray-edited-in-place"
+        pobj, pform = pobj_override, (pform_override or "callers-own-ndarray-edited-in-place")
     ctx.count("container:" + pform)
     try:
         with core.quiet(), P.forced_seed(bits_vec) as calls:
@@ -208,6 +208,21 @@ def run(tier, seed):
                 p = [0.4 * x / max(1e-9, max(abs(v) for v in p)) for x in p]
             eps, suc, tol = 0.0, float(rng.choice([1.0, 0.95])), float(rng.choice([1e-8, 1e-9]))
             run_one(ctx, A, C, p, kind + "/eps=0", eps, suc, tol, so, None, {"poly": p, "kind": kind + "/eps=0", "eps": eps, "suc": suc, "tolerance": tol, "signal_operator": so})
+    # single-precision containers holding LARGE monomial coefficients (bounded polynomials of degree 12..16 have coefficients
+    # up to 2^d): the polynomial asked for is the one the float32 numbers denote exactly; an implementation that keeps
+    # computing in the caller's dtype moves the target by 2^-24 * 2^d
+    from numpy.polynomial import Polynomial as NPoly
+    for d in (12, 13, 15, 16):
+        for form in ("float32-ndarray", "Polynomial-of-float32", "list-of-np.float32"):
+            so = str(rng.choice(["Wx", "Wz"]))
+            c = np.zeros(d + 1); c[d] = float(rng.choice([0.9, -0.8])); c[d - 2] = float(rng.uniform(-0.05, 0.05))
+            a32 = np.array(P.mono_from_cheb(list(c)), dtype=np.float32)
+            pv = [float(x) for x in a32]
+            obj = a32.copy() if form == "float32-ndarray" else (NPoly(a32.copy()) if form == "Polynomial-of-float32" else [np.float32(x) for x in a32])
+            kind = "narrow-dtype-large-coefficients"
+            run_one(ctx, A, C, pv, kind, 1e-4, 1 - 1e-4, 1e-6, so, None,
+                    {"poly": pv, "kind": kind, "eps": 1e-4, "suc": 1 - 1e-4, "tolerance": 1e-6, "signal_operator": so, "container": form},
+                    pobj_override=obj, pform_override=form)
     # a highest coefficient that the capitalisation term eps/2 x^d nearly or exactly cancels (p_d = -f eps/2): the target
     # suc (p + eps/2 x^d) then has a tiny or vanishing highest coefficient; whatever is returned must have d+1 phases and
     # realise THAT target (eps well above 100 tol, so the sign and size of the capitalisation are visible)
